@@ -14,7 +14,7 @@ LEVEL_TEXT = (
     " collection; the SARIF writer gets the same filters and the cached reports; filter laws (complete order table of the"
     " categories by abstract evaluation, level/allow predicates); every pass is registered and its result appended; every"
     " finding can pass the per-file filter (truth table over label worlds x category); rule ids and names injective; SARIF regions use the"
-    " renderer's own location lookup; type-resolved scan: nothing but the user's filters narrows a collection of reports; the three SARIF conversions evaluated with recording builders; the SARIF file is opened truncating and holds the serialisation of the reports handed in.; the analysis runner evaluated on two templates and two functions with modelled lifting and passes (what is written is exactly what was produced, each report once, also when a pass asks for a definition again)."
+    " renderer's own location lookup; type-resolved scan: nothing but the user's filters narrows a collection of reports; the three SARIF conversions evaluated with recording builders; the SARIF file is opened truncating and holds the serialisation of the reports handed in.; the analysis runner evaluated on two templates and two functions with modelled lifting and passes (what is written is exactly what was produced, each report once, also when a pass asks for a definition again). Filter arguments are resolved with the binding in force where each writer is built and the options are not modified in main; Report::to_sarif is evaluated on labels with concrete regions (a secondary label before the primary one is kept)."
 )
 NOT_DECIDED = "`exactly once` across recursive template instantiation; that positions in SARIF equal the terminal's beyond using the same lookup."
 ENGINE = "mirfacts+astq"
